@@ -216,7 +216,7 @@ def run_config(cfg):
 
 def configs(tier):
     if tier == "quick":
-        crossed = [(w, s) for w in (1, 2, 3) for s in (None, 2)]
+        crossed = [(w, s) for w in (1, 2, 3) for s in (None, 2)] + [(2, 3), (3, 3)]
         bound = 2
     else:
         crossed = [(w, s) for w in (1, 2, 3, 4) for s in (None, 1, 2, 3)]
